@@ -235,10 +235,20 @@ pub fn run_case(prop: &str, case: &AnyCase) -> RunReport {
         AnyCase::Pipe(pc) => {
             let out = pipesim::run_write(pc, false);
             let mut py = false;
+            let mut info_tool = false;
             let verdict = match prop {
                 "C01" => checks::check_c01(pc, &out),
                 "C02" => checks::check_c02(pc, &out),
-                "C06" => checks::check_c06(pc, &out),
+                "C06" => {
+                    let v = checks::check_c06(pc, &out);
+                    // a small share of the files also goes through bigwiginfo / bigbedinfo (built binary)
+                    if v == Verdict::Pass && hash_bytes(&out.image) % 64 == 0 {
+                        info_tool = true;
+                        checks::check_c06_info_tool(pc, &out.image)
+                    } else {
+                        v
+                    }
+                }
                 "C07" | "C08" => checks::check_zooms(pc, &out),
                 "C09" => {
                     let v = checks::check_c09(pc, &out);
@@ -257,6 +267,9 @@ pub fn run_case(prop: &str, case: &AnyCase) -> RunReport {
             let mut stats = pipe_stats(pc, &out);
             if py {
                 stats.counters.insert("images_judged_by_python_decoder".into(), 1);
+            }
+            if info_tool && std::env::var("VERIF_BIGTOOLS_BIN").map(|b| std::path::Path::new(&b).exists()).unwrap_or(false) {
+                stats.counters.insert("files_through_info_tool(subprocess)".into(), 1);
             }
             RunReport {
                 verdict,
